@@ -5,6 +5,12 @@
 #include "verif_samplers.h"
 #include "c_enc.h"
 int32_t g_k;
+/* small structural dimensions (k, kpl): symbolic up to CAP(x) in the proof, capped like everything else in the bounded arbiter */
+#ifdef VERIF_BOUND
+#define CAP(x) VERIF_BOUND
+#else
+#define CAP(x) (x)
+#endif
 
 #ifdef H_GAUSSIAN
 static double m_d; static int n_dtot; static Torus32 m_ret;
@@ -191,7 +197,7 @@ void tLweSymEncryptZero(TLweSample *result, double alpha, const TLweKey *key) {
     long idx = result - g_res->all_sample; if (alpha != g_alpha || key != g_key || idx <= last) bad++; last = (int)idx; n_calls++; if (idx == g_i) n_watched++; }
 #include "extracted.inc"
 void h_tGswEncryptZero(void) {
-    int32_t kpl; __CPROVER_assume(kpl >= 1 && kpl <= 4096);
+    int32_t kpl; __CPROVER_assume(kpl >= 1 && kpl <= CAP(4096));
     TGswParams gp; *(int32_t *)&gp.kpl = kpl; TGswKey key; key.params = &gp;
     TGswSample res; res.all_sample = verif_alloc((size_t)kpl * sizeof(TLweSample));
     double in_alpha; __CPROVER_assume(in_alpha >= 0.0 && in_alpha <= 1.0); int32_t gi; __CPROVER_assume(gi >= 0 && gi < kpl); g_i = gi;
@@ -212,7 +218,7 @@ void torusPolynomialAddMulRFFT(TorusPolynomial *result, const IntPolynomial *pol
     if (result != g_res->b || poly1 != &g_key->key[n_m] || poly2 != &g_res->a[n_m] || n_u != n_m + 1) bad++; n_m++; }
 #include "extracted.inc"
 void h_tLweSymEncryptZero(void) {
-    int32_t N, k; __CPROVER_assume(N >= 1 && N <= VERIF_NMAX && k >= 1 && k <= 64);
+    int32_t N, k; __CPROVER_assume(N >= 1 && N <= VERIF_NMAX && k >= 1 && k <= CAP(64));
     TLweParams tp; *(int32_t *)&tp.N = N; *(int32_t *)&tp.k = k; TLweKey key; key.params = &tp; key.key = verif_alloc((size_t)k * sizeof(IntPolynomial));
     TLweSample res; res.a = verif_alloc((size_t)(k + 1) * sizeof(TorusPolynomial)); res.b = res.a + k; res.b->coefsT = verif_alloc((size_t)N * sizeof(Torus32));
     const double in_alpha = VERIF_ALPHA;
@@ -321,7 +327,7 @@ TorusPolynomial *new_TorusPolynomial(const int32_t N) { g_tmp = verif_alloc(size
 void delete_TorusPolynomial(TorusPolynomial *obj) { if (obj != g_tmp) bad++; n_del++; free(obj->coefsT); free(obj); }
 #include "extracted.inc"
 void h_tLwePhase(void) {
-    int32_t k; __CPROVER_assume(k >= 1 && k <= 64);
+    int32_t k; __CPROVER_assume(k >= 1 && k <= CAP(64));
     TLweParams tp; *(int32_t *)&tp.k = k; TLweKey key; key.params = &tp; key.key = verif_alloc((size_t)k * sizeof(IntPolynomial));
     TLweSample s; s.a = verif_alloc((size_t)(k + 1) * sizeof(TorusPolynomial)); s.b = s.a + k; TorusPolynomial ph;
     p_s = &s; p_k = &key; p_ph = &ph; s_copy = n_sub = bad = seq = 0;
@@ -376,7 +382,7 @@ void h_tLweSymDecrypt(void) {
 int32_t g_i;
 #include "extracted.inc"
 void h_tLweKeyGen(void) {
-    int32_t N; __CPROVER_assume(N >= 1 && N <= 65536);
+    int32_t N; __CPROVER_assume(N >= 1 && N <= CAP(65536));
     TLweParams tp; *(int32_t *)&tp.N = N; *(int32_t *)&tp.k = VERIF_K;
     IntPolynomial kp[VERIF_K]; for (int i = 0; i < VERIF_K; i++) { *(int32_t *)&kp[i].N = N; kp[i].coefs = verif_alloc((size_t)N * sizeof(int32_t)); }
     TGswParams gp; *(const TLweParams **)&gp.tlwe_params = &tp;
@@ -533,6 +539,66 @@ void h_tGswSymDecrypt(void) {
 #if VERIF_L >= 4
     free(o_dec[3].coefs);
 #endif
+    VERIF_REACH();
+}
+#endif
+
+#ifdef H_KSCREATE_U
+/* lweCreateKeySwitchKey, UNBOUNDED in n (loop contracts on all five loops), (t, basebit) enumerated, one watched index g_i (symbolic):
+ * result->ks[g_i] points to its own row blocks B, every other ks[i] to the blocks A (__CPROVER_array_set).  Decides for every n and g_i:
+ * n*t*(base-1) centred gaussian draws with the OUTPUT key's alpha_min; the noise array is indexed inside its bounds at every step
+ * (index = (i*t + j)*(base-1) + h-1); for index g_i every row (j,0) becomes the noiseless zero sample and every row (j,h>=1) is encrypted
+ * exactly once, with message h*s_i*2^(32-(j+1)basebit), the output key and that alpha; no other iteration touches the rows of g_i;
+ * all other writes stay inside their own block.  Which noise entry goes to which row, and the recentring in doubles, are not decided. */
+#define T_ VERIF_KS_T
+#define BB_ VERIF_KS_BB
+#define BASE_ (1 << BB_)
+#include "ksc.inc"          /* generated per (t, basebit): KSC_BLOCKS(M) = M(0) .. M(t-1);  KSC_ROWS(M) = M(j,d) for all j < t, 1 <= d < base;  KSC_MASK(j,h) */
+#include "c_ksc.h"
+static LweSample *rowA[T_], *rowB[T_];
+int32_t kc_bad, kc_trivB, kc_encB, kc_nd, g_i, kc_key; uint64_t kc_hit; static const LweKey *g_out; static double g_alpha;
+#undef verif_normal_draw
+static double ksu_draw(verif_normal_t *d) { double x; __CPROVER_assume(x > -1.0 && x < 1.0); if (d->mean != 0.0 || d->sigma != g_alpha) kc_bad++; kc_nd++; return x; }
+#define verif_normal_draw ksu_draw
+#define KT_B(j) if (result == &rowB[j][0]) { found = 1; kc_trivB++; }
+#define KT_A(j) if (result == &rowA[j][0]) found = 1;
+void lweNoiselessTrivial(LweSample *result, Torus32 mu, const LweParams *params) {
+    int found = 0;
+    KSC_BLOCKS(KT_B)
+    KSC_BLOCKS(KT_A)
+    if (!found || mu != 0 || params != g_out->params) kc_bad++; }
+#define KE_B(j, d) if (result == &rowB[j][d]) { found = 1; kc_encB++; if (message != (Torus32)(((uint32_t)kc_key * (uint32_t)(d)) * (1u << (32 - ((j) + 1) * BB_))) || ((kc_hit >> ((j) * BASE_ + (d))) & 1u)) kc_bad++; kc_hit |= (uint64_t)1 << ((j) * BASE_ + (d)); }
+#define KE_A(j, d) if (result == &rowA[j][d]) found = 1;
+void lweSymEncryptWithExternalNoise(LweSample *result, Torus32 message, double noise, double alpha, const LweKey *key) {
+    int found = 0;
+    KSC_ROWS(KE_B)
+    KSC_ROWS(KE_A)
+    if (!found || alpha != g_alpha || key != g_out) kc_bad++; }
+#include "extracted.inc"
+void h_createKeySwitchKey_unbounded(void) {
+#ifdef VERIF_BOUND
+    int32_t n; __CPROVER_assume(n >= 1 && n <= VERIF_BOUND);    /* bounded arbiter */
+#else
+    int32_t n; __CPROVER_assume(n >= 1 && n <= 1000000);       /* n*t*(base-1) must fit the int32_t the function computes it in */
+#endif
+#define KC_ALLOC(j) rowA[j] = verif_alloc((size_t)BASE_ * sizeof(LweSample)); rowB[j] = verif_alloc((size_t)BASE_ * sizeof(LweSample));
+    KSC_BLOCKS(KC_ALLOC)
+    LweSample ***tab = verif_alloc((size_t)n * sizeof(LweSample **));
+    __CPROVER_array_set(tab, (LweSample **)rowA);
+    int32_t gi; __CPROVER_assume(gi >= 0 && gi < n); g_i = gi; tab[gi] = (LweSample **)rowB;
+    double a_sym; __CPROVER_assume(a_sym >= 0.0 && a_sym <= 1.0);
+    LweParams op; *(double *)&op.alpha_min = a_sym; *(int32_t *)&op.n = 3; LweParams ipar; *(int32_t *)&ipar.n = n; *(double *)&ipar.alpha_min = 0.25;
+    LweKeySwitchKey ks; ks.n = n; ks.t = T_; ks.basebit = BB_; ks.base = BASE_; ks.out_params = &op; ks.ks = tab;
+    LweKey in; in.params = &ipar; in.key = verif_alloc((size_t)n * sizeof(int32_t)); LweKey out; out.params = &op;
+    kc_key = in.key[gi]; g_out = &out; g_alpha = a_sym; kc_bad = kc_trivB = kc_encB = kc_nd = 0; kc_hit = 0;
+    lweCreateKeySwitchKey(&ks, &in, &out);
+    __CPROVER_assert(kc_bad == 0, "every draw is centred with the OUTPUT key's alpha_min; every row write goes to a row of the table (digit 0: noiseless zero sample; digit h >= 1: encryption under the output key with that alpha); rows of index g_i carry h*s_i*2^(32-(j+1)basebit), each written once");
+    __CPROVER_assert((int64_t)kc_nd == (int64_t)n * T_ * (BASE_ - 1), "n*t*(base-1) gaussian draws");
+    __CPROVER_assert(kc_trivB == T_ && kc_encB == T_ * (BASE_ - 1) && kc_hit == KSC_MASK(T_, 1), "index g_i: one noiseless zero row per j, one encryption per (j, h >= 1), every row exactly once, and no other iteration touches them");
+    __CPROVER_assert(in.key[gi] == kc_key, "input key untouched");
+#define KC_FREE(j) free(rowA[j]); free(rowB[j]);
+    KSC_BLOCKS(KC_FREE)
+    free(tab); free(in.key);
     VERIF_REACH();
 }
 #endif
